@@ -118,16 +118,20 @@ enum Carrier {
     ResponseHeaders,
     TrailersOnly,
     Trailers,
+    /// trailing metadata of a SUCCESSFUL streaming call: the handler's stream ends with an OK status
+    /// that carries the metadata
+    OkTrailers,
 }
 
 impl Carrier {
-    const ALL: [Carrier; 4] = [Carrier::Request, Carrier::ResponseHeaders, Carrier::TrailersOnly, Carrier::Trailers];
+    const ALL: [Carrier; 5] = [Carrier::Request, Carrier::ResponseHeaders, Carrier::TrailersOnly, Carrier::Trailers, Carrier::OkTrailers];
     fn name(&self) -> &'static str {
         match self {
             Carrier::Request => "request",
             Carrier::ResponseHeaders => "response",
             Carrier::TrailersOnly => "trailers-only",
             Carrier::Trailers => "trailers",
+            Carrier::OkTrailers => "ok-trailers",
         }
     }
     /// (shape, handler-level error) combinations that produce this carrier.
@@ -135,7 +139,7 @@ impl Carrier {
         match self {
             Carrier::Request | Carrier::ResponseHeaders => Shape::ALL.iter().map(|s| (*s, false)).collect(),
             Carrier::TrailersOnly => vec![(Shape::Unary, false), (Shape::ClientStream, false), (Shape::ServerStream, true), (Shape::Bidi, true)],
-            Carrier::Trailers => vec![(Shape::ServerStream, false), (Shape::Bidi, false)],
+            Carrier::Trailers | Carrier::OkTrailers => vec![(Shape::ServerStream, false), (Shape::Bidi, false)],
         }
     }
 }
@@ -314,6 +318,7 @@ fn script_for(c: &WireCase, md: &Md) -> (Script, Md) {
         Carrier::Request => req_md = md.clone(),
         Carrier::ResponseHeaders => script.initial_md = md.clone(),
         Carrier::TrailersOnly | Carrier::Trailers => script.end = Some(carrier_status(md.clone())),
+        Carrier::OkTrailers => script.end = Some(StatusSpec { code: 0, message: String::new(), details: vec![], md: md.clone() }),
     }
     (script, req_md)
 }
@@ -327,6 +332,9 @@ fn legit_protocol_value(carrier: Carrier, name: &str, value: &[u8], at_peer: boo
     let status_carrier = matches!(carrier, Carrier::TrailersOnly | Carrier::Trailers);
     if at_peer && carrier == Carrier::ResponseHeaders && name == "grpc-status" && value == b"0" {
         return true;
+    }
+    if carrier == Carrier::OkTrailers {
+        return name == "grpc-status" && value == b"0";
     }
     match name {
         "te" => carrier == Carrier::Request && value == b"trailers",
@@ -487,6 +495,7 @@ fn peer_view(c: &WireCase, view: &ClientView, handler_md: Option<&HeaderMap>) ->
         Carrier::Request => handler_md.cloned().map(MetadataMap::from_headers),
         Carrier::ResponseHeaders => view.initial_md.clone().map(MetadataMap::from_headers),
         Carrier::TrailersOnly | Carrier::Trailers => view.error.as_ref().map(|s| s.metadata().clone()),
+        Carrier::OkTrailers => view.trailers.clone().map(MetadataMap::from_headers),
     }
 }
 
@@ -511,7 +520,7 @@ fn wire_l1_body(tables: &Tables, c: &WireCase, ch: &Chooser) -> Outcome {
     let block: Option<HeaderMap> = match c.carrier {
         Carrier::Request => (cap.calls == 1).then(|| cap.req_headers.clone()),
         Carrier::ResponseHeaders | Carrier::TrailersOnly => cap.resp_status.map(|_| cap.resp_headers.clone()),
-        Carrier::Trailers => cap.resp_body.trailers.first().cloned(),
+        Carrier::Trailers | Carrier::OkTrailers => cap.resp_body.trailers.first().cloned(),
     };
     let peer = peer_view(c, &view, log.req_md.as_ref());
     let mut o = Outcome::new(format!(
@@ -529,6 +538,11 @@ fn wire_l1_body(tables: &Tables, c: &WireCase, ch: &Chooser) -> Outcome {
     match &peer {
         Some(p) => judge_peer(&mut o, c.carrier, p, &md),
         None => o.violate(format!("{cn}-not-delivered"), format!("the peer never received the carrier (caller view: {})", super::l1::fmt_view(&view))),
+    }
+    if c.carrier == Carrier::OkTrailers {
+        if let Some(e) = &view.error {
+            o.violate("ok-trailers-call-failed", format!("the handler ended its stream with an OK status carrying metadata but the caller got {}", crate::env::fmt_status(e)));
+        }
     }
     // the error status must still be the handler's (code/message/details), metadata aside
     if let (Carrier::TrailersOnly | Carrier::Trailers, Some(e)) = (c.carrier, &view.error) {
